@@ -423,6 +423,25 @@ def search(ctx):
                 p0 = priors[0]
                 if (p0 + 0) is not p0 or (0 + p0) is not p0 or (p0 * 1) is not p0 or (1 * p0) is not p0 or (p0 - 0) is not p0 or (p0 / 1) is not p0:
                     ctx.violation("C14:identity", "adding 0 / multiplying by 1 does not return the prior itself", info)
+                # ... and with the numbers as NumPy hands them out (an element of an array, the result of np.sum): np.float64 / np.int64
+                for zt, ot in ((np.float64(0), np.float64(1)), (np.int64(0), np.int64(1)), (np.float32(0), np.float32(1))):
+                    got = [(p0 + zt) is p0, (zt + p0) is p0, (p0 * ot) is p0, (ot * p0) is p0, (p0 - zt) is p0, (p0 / ot) is p0]
+                    if not all(got):
+                        ctx.violation("C14:identity:numpy-scalar", "adding 0 / multiplying by 1 given as %s does not return the prior itself (p+0, 0+p, p*1, 1*p, p-0, p/1: %r)" % (type(zt).__name__, got),
+                                      dict(info, scalar_type=type(zt).__name__))
+                        break
+                    rz = [impl_call(lambda: p0 * zt), impl_call(lambda: zt * p0)]
+                    if not all(isinstance(r, tuple) and r[1] == "TypeError" for r in rz):
+                        ctx.violation("C14:bad-operand:numpy-scalar", "multiplying by 0 given as %s did not raise TypeError (p*0, 0*p: %r)" % (type(zt).__name__, [r if isinstance(r, tuple) else type(r).__name__ for r in rz]),
+                                      dict(info, scalar_type=type(zt).__name__))
+                        break
+                    # and the derived prior is the same object graph as with a Python number
+                    c = np.float64(2.5)
+                    for nm, f in (("c*p", lambda v: v * p0), ("c+p", lambda v: v + p0), ("c-p", lambda v: v - p0), ("c/p", lambda v: v / p0)):
+                        a_np, a_py = f(c), f(2.5)
+                        if repr(a_np) != repr(a_py):
+                            ctx.violation("C14:numpy-scalar-left", "%s with c = np.float64(2.5) builds %r, with c = 2.5 %r" % (nm, a_np, a_py), dict(info, expr=nm))
+                            break
                 for bad in (lambda: p0 * 0, lambda: 0 * p0, lambda: p0 + "a", lambda: p0 * "a", lambda: p0 * [1, 2]):
                     r = impl_call(bad)
                     if not (isinstance(r, tuple) and r[1] == "TypeError"):
